@@ -602,8 +602,12 @@ func c04RandomPS(c *Ctx, logN, nQ, nP int) *c04PS {
 		if !ok {
 			continue
 		}
+		// secret distribution: ternary (density / Hamming weight) and Gaussian (non-ternary) secrets
+		c04XsChoice = c.rng.Intn(5)
 		ps, err := c04NewPS(logN, Q, P, c.rng.Intn(2) == 0)
+		c04XsChoice = 0
 		if err == nil {
+			c.Count(fmt.Sprintf("xs:%d", ps.xs))
 			return ps
 		}
 	}
@@ -634,6 +638,7 @@ func genC04(c *Ctx) {
 	c04HoistedLevels(c)
 	c04RecycleLevels(c)
 	c04DerivedKeys(c)
+	c04AutKeySets(c)
 	c04Malformed(c)
 	c04DegreeSwitch(c)
 	c04Packing(c)
